@@ -143,7 +143,14 @@ __CPROVER_ensures(PTR_EQ(__CPROVER_return_value, &g_stype[__CPROVER_old(g_type_n
 /* bool Expression::isConst() const : any answer */
 _Bool __g2c_nondet_bool(void);
 int g_isconst_n; _Bool g_isconst_all = 1;   /* how often it was asked, and whether every answer so far was "yes" */
+#ifdef ISCONST_PINNED
+/* whether the receiver node is a constant of the program is a FACT about the node, fixed before the call (the contract lists it as input
+ * state): a clause can then speak about constant receivers whether or not the code remembers to ask */
+_Bool g_isconst_answer;
+_Bool VCALL_Expression_isConst(const struct Expression *e) { (void)e; g_isconst_n++; g_isconst_all = g_isconst_all && g_isconst_answer; return g_isconst_answer; }
+#else
 _Bool VCALL_Expression_isConst(const struct Expression *e) { _Bool r = __g2c_nondet_bool(); (void)e; g_isconst_n++; g_isconst_all = g_isconst_all && r; return r; }
+#endif
 #define ST1 (&g_stype[0])
 #define ST2 (&g_stype[1])
 #endif
